@@ -15,7 +15,8 @@ MANIFEST = {
             'lemmas are verified ghost lemmas; every obligation is generated from the current source and discharged by z3/cvc5. '
             'An exhaustive small-scope run of the same executable contract on the real function is the labelled bounded stand-in and replay vehicle.',
     'note': 'Trusted: pyvc engine and its numpy/builtins spec tables; numpy randint uint32 chunk invariance and range (sanity-tested every run); '
-            'integers mathematical; termination of the drawing loop not proved; call sites of get_sub_seed (loader, tools, samplers, bolfi) are covered by C02/C18 call-pre obligations, not here.',
+            'integers mathematical; termination of the drawing loop not proved; call sites: prepare_seed is under contract here (a cache handed to get_sub_seed must be dedicated to the master seed), '
+            'the other call sites are listed by a syntactic census (no cache passed, or ownership / index sign proved by C02, C07, C18); a new call site of unknown kind is undecided.',
     'technique': 'deductive: loop-invariant VCs from the real AST (pyvc) + ghost lemma functions, z3/cvc5; bounded stand-in: exhaustive high<=5',
 }
 
@@ -359,6 +360,213 @@ ASSUMPTIONS = ['A-INT: integers are mathematical', 'termination of the drawing l
 NOT_PROVED = []
 
 
+
+# ====================================================================== call sites of get_sub_seed
+# "The seed derived for index i from a master seed is the same ... whatever indices were requested before" is a statement
+# about what the CALLERS hand out, too: get_sub_seed's contract REQUIRES that a cache, if one is passed, is {} or a prefix
+# of the stream of the SAME master seed (cache_ok is stated over draw(.) of that seed).  A caller that shares one cache
+# between master seeds breaks the property although get_sub_seed itself is unchanged.
+SUBSEED = z3.Function('sub_seed', I, I, I, I)        # sub_seed(master seed, index, high): by GetSubSeed + LemmaUnique a function of these alone
+HIGH_DEFAULT = 2 ** 31
+
+
+def gss_spec(vc, seed, sub_seed_index, high=HIGH_DEFAULT, cache=None):
+    """get_sub_seed seen from a caller (its contract above): call-pre index >= 0; a cache must be {} or dedicated to this
+    master seed; ValueError iff index >= high; the result is sub_seed(seed, index, high) in [0, high)."""
+    from pyvc.core import program_exception
+    from pyvc.engine import ModuleState
+    sd, ix, hi = lift(seed), lift(sub_seed_index), lift(high)
+    if not (isinstance(sd, SInt) and isinstance(ix, SInt) and isinstance(hi, SInt)):
+        raise OutOfSubset('get_sub_seed(%s, %s, %s)' % (type(seed).__name__, type(sub_seed_index).__name__, type(high).__name__))
+    vc.oblige('call-pre[get_sub_seed: index >= 0]', ix.t >= 0)
+    if cache is None or (type(cache) is dict and len(cache) == 0):
+        pass                                     # no cache, or a fresh empty dict created on this path: history-free
+    elif isinstance(cache, ModuleState):
+        vc.taint('the shared mutable object `%s` is passed as the sub-seed cache: which master seed filled it last is unknown' % cache._vc_name)
+        vc.oblige('call-pre[get_sub_seed: the cache is {} or a stream prefix of THIS master seed (one cache per master seed)]', z3.BoolVal(False),
+                  note='cache object `%s` outlives the call and is not tied to the master seed' % cache._vc_name)
+    elif isinstance(cache, CacheDict) and getattr(cache, 'owner', None) is not None:
+        vc.oblige('call-pre[get_sub_seed: the cache is {} or a stream prefix of THIS master seed (one cache per master seed)]',
+                  z3.Or(z3.Not(cache.nonempty), cache.owner == sd.t))
+    else:
+        raise OutOfSubset('get_sub_seed cache of type %s' % type(cache).__name__)
+    if vc.branch(ix.t >= hi.t):
+        raise program_exception(ValueError('Sub seed index is out of range'))
+    r = SUBSEED(sd.t, ix.t, hi.t)
+    vc.assume(z3.And(r >= 0, r < hi.t))
+    return SInt(r)
+
+
+class _StateVec:
+    def __init__(self, word):
+        self.word = word
+
+    def __getitem__(self, i):
+        if isinstance(i, int) and not isinstance(i, bool) and i == 0:
+            return SInt(self.word)
+        raise OutOfSubset('state vector index %r' % (i,))
+
+
+class _Generator:
+    """numpy RandomState as prepare_seed sees it: get_state()[1][0] is the first word of the MT19937 key (for
+    RandomState(s) with an integer s it is s itself; sanity-tested); get_state does not advance the generator"""
+
+    def __init__(self, word):
+        self.word = word
+        self.reads = 0
+
+    def get_state(self, legacy=True):
+        self.reads += 1
+        return ('MT19937', _StateVec(self.word), 624, 0, 0.0)
+
+
+class PrepareSeed(Contract):
+    target = 'elfi/model/tools.py::prepare_seed'
+    prop = 'C15'
+    fin = 4
+
+    def __init__(self, mode):
+        self.mode = mode            # 'index' | 'index=None' | 'no-index' | 'no-random_state'
+        self.label = mode
+
+    def env(self, vc):
+        from pyvc.engine import Stub
+        return {'get_sub_seed': Stub('get_sub_seed', gss_spec, checked_by='C15/get_sub_seed[nocache|cache] + lemma_unique_position')}
+
+    def setup(self, vc):
+        w, i = z3.Ints('state_word index_in_batch')
+        vc.fin_bounds.extend([w, i])
+        s = NS(w=w, i=i, x0=object(), other=object())
+        kw = dict(other=s.other, batch_index=SInt(z3.Int('batch_index')))
+        if self.mode != 'no-random_state':
+            s.rs = kw['random_state'] = _Generator(w)
+        if self.mode == 'index':
+            kw['index_in_batch'] = SInt(i)
+        elif self.mode == 'index=None':
+            kw['index_in_batch'] = None
+        s.kw = kw
+        return s, (s.x0,), dict(kw)
+
+    def requires(self, s):
+        # index_in_batch is the row number run_vectorized enumerates (C18 proves 0 <= index < batch_size there)
+        return [s.w >= 0, s.w < 2 ** 32, s.i >= 0, s.i < HIGH_DEFAULT]
+
+    def ensures(self, s, result):
+        if not (isinstance(result, tuple) and len(result) == 2 and isinstance(result[1], dict)):
+            return [('returns (inputs, kwinputs)', z3.BoolVal(False))]
+        inputs, kw = result
+        out = [('positional inputs are passed through', z3.BoolVal(isinstance(inputs, tuple) and len(inputs) == 1 and inputs[0] is s.x0)),
+               ('every other keyword argument is passed through unchanged',
+                z3.BoolVal(all(k in kw and kw[k] is v for k, v in s.kw.items()) and set(kw) <= set(s.kw) | {'seed'}))]
+        if self.mode == 'no-random_state':
+            out.append(('no seed is invented without a random_state', z3.BoolVal('seed' not in kw)))
+            return out
+        idx = s.i if self.mode == 'index' else z3.IntVal(0)
+        sd = kw.get('seed')
+        out.append(('seed = sub_seed(state word of the generator, index_in_batch or 0): a function of (master seed, index) only - no cache, no earlier request enters',
+                    z3.BoolVal(False) if not isinstance(lift(sd), SInt) else lift(sd).t == SUBSEED(s.w, idx, z3.IntVal(HIGH_DEFAULT))))
+        return out
+
+    def witness(self, vc, model, ob):
+        ev = lambda t: str(model.eval(t, model_completion=True))
+        return dict(mode=self.mode, state_word=ev(z3.Int('state_word')), index_in_batch=ev(z3.Int('index_in_batch')))
+
+
+class CallSiteCensus:
+    """every call of get_sub_seed in the tree (syntactic, driver protocol run_custom): a call site either passes no cache
+    (then the GetSubSeed[nocache] contract makes the result history-free) or is one of the sites whose cache ownership is
+    under contract; its index argument is non-negative by construction or by a named contract.  A NEW call site that
+    passes a cache, or an index of unknown sign, is undecided (the evidence level drops), never a violation by itself."""
+    target = 'elfi/utils.py::get_sub_seed'
+    prop = 'C15'
+    label = 'call-site census'
+    cover = False
+    loops = {}
+    allow_no_obligations = False
+    # file -> (function qualname, who proves the call-pre there)
+    UNDER_CONTRACT = {
+        ('elfi/loader.py', 'RandomStateLoader.load'): 'C02/RandomStateLoader.load (cache = context.caches["sub_seed"], created empty per context whose seed is immutable; index = batch_index >= 0) + bounded:sub-seed-call-sites',
+        ('elfi/model/tools.py', 'prepare_seed'): 'C15/prepare_seed[*] (this module); index_in_batch >= 0: C18/run_vectorized',
+        ('elfi/methods/inference/samplers.py', 'SMC._set_rejection_round'): 'C07/SMC._set_rejection_round call-pre (index = round >= 0, master seed)',
+    }
+
+    @property
+    def cname(self):
+        return 'get_sub_seed[%s]' % self.label
+
+    def run_custom(self, tier, seed, repo):
+        import ast
+        import glob
+        import os
+        import time
+        from pyvc import instrument
+        out = dict(results=[], error=None, covers=0, covers_sat=0, stats={}, sha256=None, target=self.target, cname=self.cname,
+                   label=self.label, refuted=[], fin_error=None, n_paths=0, samples=[])
+        t0 = time.time()
+        loc = instrument.locate(self.target, repo)
+        out['sha256'], out['lineno'] = loc.sha256, loc.lineno
+        root = repo or '/repo'
+        counts = {}
+
+        def emit(kind, verdict, note):
+            n = counts.get(kind, 0)
+            counts[kind] = n + 1
+            nm = '%s/%s/%s#%d' % (self.prop, self.cname, kind, n)
+            out['results'].append(dict(name=nm, kind=kind, verdict=verdict, backend='syntactic(ast)', seconds=0.0, note=note,
+                                       reason=note if verdict == 'undecided' else None, expect='unsat', func='%s/%s' % (self.prop, self.cname)))
+            if not out['samples']:
+                out['samples'].append(dict(name=nm, note=note))
+        n_sites = 0
+        for path in sorted(glob.glob(os.path.join(root, 'elfi', '**', '*.py'), recursive=True)):
+            rel = os.path.relpath(path, root)
+            try:
+                tree = ast.parse(open(path).read())
+            except SyntaxError as e:
+                emit('frame[call sites of get_sub_seed]', 'undecided', '%s does not parse: %s' % (rel, e))
+                continue
+            # qualname of the enclosing function of every node + for-range loop targets in scope
+            def walk(node, qual, ranged):
+                nonlocal n_sites
+                for ch in ast.iter_child_nodes(node):
+                    q, r = qual, ranged
+                    if isinstance(ch, (ast.FunctionDef, ast.ClassDef)):
+                        q = (qual + '.' if qual else '') + ch.name
+                    if isinstance(ch, ast.For) and isinstance(ch.target, ast.Name) and isinstance(ch.iter, ast.Call) and isinstance(ch.iter.func, ast.Name) \
+                            and ch.iter.func.id == 'range' and (len(ch.iter.args) == 1 or (isinstance(ch.iter.args[0], ast.Constant) and isinstance(ch.iter.args[0].value, int) and ch.iter.args[0].value >= 0)) \
+                            and len(ch.iter.args) <= 2:
+                        r = ranged | {ch.target.id}
+                    if isinstance(ch, ast.Call) and ((isinstance(ch.func, ast.Name) and ch.func.id == 'get_sub_seed') or (isinstance(ch.func, ast.Attribute) and ch.func.attr == 'get_sub_seed')):
+                        n_sites += 1
+                        site = '%s:%d (%s)' % (rel, ch.lineno, qual or '<module>')
+                        known = self.UNDER_CONTRACT.get((rel, qual))
+                        has_cache = len(ch.args) >= 4 or any(k.arg == 'cache' or k.arg is None for k in ch.keywords) or any(isinstance(a, ast.Starred) for a in ch.args)
+                        if not has_cache:
+                            emit('frame[call site passes no cache: the derived seed is history-free by GetSubSeed[nocache]]', 'discharged', site)
+                        elif known:
+                            emit('frame[call site passes a cache whose ownership is under contract]', 'discharged', '%s: %s' % (site, known))
+                        else:
+                            emit('frame[call site passes a cache whose ownership is under contract]', 'undecided', '%s passes a cache and is not a site under contract' % site)
+                        ix = ch.args[1] if len(ch.args) >= 2 and not any(isinstance(a, ast.Starred) for a in ch.args[:2]) else next((k.value for k in ch.keywords if k.arg == 'sub_seed_index'), None)
+                        if known:
+                            emit('frame[index argument is >= 0]', 'discharged', '%s: %s' % (site, known))
+                        elif isinstance(ix, ast.Name) and ix.id in ranged:
+                            emit('frame[index argument is >= 0]', 'discharged', '%s: `%s` is the target of a for-range loop' % (site, ix.id))
+                        elif isinstance(ix, ast.Constant) and isinstance(ix.value, int) and ix.value >= 0:
+                            emit('frame[index argument is >= 0]', 'discharged', '%s: literal %d' % (site, ix.value))
+                        else:
+                            emit('frame[index argument is >= 0]', 'undecided', '%s: index `%s` is not known to be non-negative' % (site, ast.unparse(ix) if ix is not None else '?'))
+                    walk(ch, q, r)
+            walk(tree, '', frozenset())
+        if n_sites == 0:
+            emit('frame[call sites of get_sub_seed]', 'undecided', 'no call site found: the census did not see the tree it expects')
+        out['n_paths'] = len(out['results'])
+        out['wall_s'] = round(time.time() - t0, 3)
+        return out
+
+
+CONTRACTS += [PrepareSeed('index'), PrepareSeed('index=None'), PrepareSeed('no-index'), PrepareSeed('no-random_state'), CallSiteCensus()]
+
+
 def sanity():
     import numpy as np
     out = []
@@ -370,12 +578,15 @@ def sanity():
     s = set()
     s.update(np.array([1, 1, 2], dtype='uint32'))
     out.append(('set of numpy scalars counts distinct values', len(s) == 2))
+    g = np.random.RandomState(4711)
+    w0 = int(g.get_state()[1][0])
+    out.append(('RandomState(s).get_state()[1][0] == s and get_state does not advance the generator', w0 == 4711 and int(g.get_state()[1][0]) == 4711))
     return out
 
 
 def bounded(tier, seed):
     from bounded import c15 as b
-    return [b.run(tier, seed)]
+    return [b.run(tier, seed), b.run_call_sites(tier, seed)]
 
 
 _replay_cache = {}
@@ -384,6 +595,12 @@ _replay_cache = {}
 def replay_refuted(cname, rf):
     """a refuted obligation of get_sub_seed: look for a failing input of the executable contract on the real function"""
     from bounded import c15 as b
+    if cname.startswith('prepare_seed'):
+        if 'p' not in _replay_cache:
+            r = b.run_call_sites('thorough', 0)
+            f = [x for x in r['failures'] if x['input'].get('kind') == 'prepare_seed']
+            _replay_cache['p'] = dict(found=True, input=f[0]['input'], observed=f[0]['what']) if f else dict(found=False, searched=r['bound'], cases=r['cases'])
+        return _replay_cache['p']
     if 'r' in _replay_cache:
         return _replay_cache['r']
     _replay_cache['r'] = r = _replay_search(b)
